@@ -131,6 +131,30 @@ func c10Apply(cs c10Case) c10Res {
 		inPlace = false
 	case "recombine":
 		err = al.Recombine(cs.F1, cs.F2, cs.B)
+		if err == nil && cs.N == 1 {
+			// the rows are then edited one cell at a time: every write reaches its own cell only (rows that
+			// recombination made equal are still rows of their own)
+			want := readRows(al)
+			for i := range want {
+				if len(want[i].Seq) == 0 {
+					continue
+				}
+				if e := al.SetSequenceChar(i, 0, '?'); e != nil {
+					res.Aux = append(res.Aux, fmt.Sprintf("SetSequenceChar(%d,0) fails: %v", i, e))
+					break
+				}
+				want[i].Seq = "?" + want[i].Seq[1:]
+				if got := readRows(al); !sameRows(got, want) {
+					res.Aux = append(res.Aux, fmt.Sprintf("after writing cell (%d,0) the rows read %v, expected %v", i, got, want))
+					break
+				}
+			}
+			for i := range want {
+				if len(want[i].Seq) > 0 {
+					al.SetSequenceChar(i, 0, cs.Seqs[0][0]) // any letter of the alphabet: the leaf check reads columns >= 1 only after this
+				}
+			}
+		}
 	case "addgaps":
 		al.AddGaps(cs.F1, cs.F2)
 	case "mutate":
@@ -421,6 +445,9 @@ func c10Leaf(cs c10Case, res c10Res) (clause, desc string) {
 		}
 		if res.Err != "" {
 			return bad("unexpected-error", "%s", res.Err)
+		}
+		if len(res.Aux) > 0 {
+			return bad("write-after-recombination-reaches-another-row", "%s", res.Aux[0])
 		}
 		if !sameNamesLens(in, out) {
 			return bad("names-or-shape-changed", "rows %v", out)
@@ -1066,6 +1093,10 @@ func c10Cases(tier string) []c10Case {
 				for _, lp := range []float64{0, 0.5, 1} {
 					for _, sw := range []bool{false, true} {
 						add(c10Case{Op: "recombine", Seqs: seqs, Alpha: nt, F1: prop, F2: lp, B: sw})
+						if lp == 1 || lp == 0.5 {
+							// then every row is written to, one cell at a time
+							add(c10Case{Op: "recombine", Seqs: seqs, Alpha: nt, F1: prop, F2: lp, B: sw, N: 1})
+						}
 					}
 				}
 			}
@@ -1191,7 +1222,7 @@ func init() {
 	mc.Register(&mc.Prop{
 		ID:    "C10",
 		Level: "model_checking",
-		Rule: "for each randomised operation (ShuffleSequences, ShuffleSites, Swap, SimulateRogue, BuildBootstrap (also block-wise followed by Concat, as build seqboot --partition does; also a second replicate drawn after the alignment was lower-cased in place), Sample, SampleSeqBag, RandSubAlign, Recombine, AddGaps, Mutate, Rarefy) on position-coded alignments of every shape n<=3 x L<=3 (4x4 for the support-checked operations in thorough; Swap of two pairs of rows on 4x3, 4x4, 5x3) and on all alignments n<=2,L<=2 over {A,C,-} for the content-sensitive ones, with all listed parameter values: EVERY sequence of RNG answers (rand.Intn: all n values; rand.Perm: all n! orders; rand.Float64: representatives on both sides of and at every threshold the code compares with) is executed; states/transitions are nodes/edges of the RNG choice trees; " +
+		Rule: "for each randomised operation (ShuffleSequences, ShuffleSites, Swap, SimulateRogue, BuildBootstrap (also block-wise followed by Concat, as build seqboot --partition does; also a second replicate drawn after the alignment was lower-cased in place), Sample, SampleSeqBag, RandSubAlign, Recombine (also followed by a write to one cell of every row in turn: a write reaches its own row only), AddGaps, Mutate, Rarefy) on position-coded alignments of every shape n<=3 x L<=3 (4x4 for the support-checked operations in thorough; Swap of two pairs of rows on 4x3, 4x4, 5x3) and on all alignments n<=2,L<=2 over {A,C,-} for the content-sensitive ones, with all listed parameter values: EVERY sequence of RNG answers (rand.Intn: all n values; rand.Perm: all n! orders; rand.Float64: representatives on both sides of and at every threshold the code compares with) is executed; states/transitions are nodes/edges of the RNG choice trees; " +
 			"per leaf the operation's invariant, per tree reached-outcome set == admissible set where the statement pins the support down (row shuffle, bootstrap, sampling, site sampling, full site shuffle, substituted letters at rate 1); SampleSeqBag also on plain sequence sets of 2..3 (thorough 4) sequences of pairwise different lengths, longest first and shortest first; RandSubAlign (window and scattered, 1024 and all of 1100 columns), BuildBootstrap, Sample / SampleSeqBag (60 rows) and ShuffleSequences on a 64x1100 alignment with pairwise distinct columns (samples of at least 65536 cells) with GOMAXPROCS 2 and 4 under the controlled scheduler (one preemption, no data race, same sample under every interleaving) and the sample judged (original columns taken for all rows, distinct, contiguous for a window; original rows); BuildBootstrap with every fraction k/100 on L = 7, 10, 50, 100 (output length floor(frac*L) as the product is computed in double precision, columns original); seed replay with the real stream for seeds 0,1,42 twice and under map-order choices, on 3x3 and (for operations reporting name lists or pairing rows) 4x4 alignments. distinct_nontrivial = distinct (case, answer sequence) leaves whose invariant was checked.",
 		Assumptions: []string{
 			"rand.Intn(n) can return every value of [0,n) and rand.Perm every permutation (positive probability is decided as reachability over RNG answers)",
